@@ -11,6 +11,8 @@ def nontrivial(case):
     inp = case.get("input", {})
     if case["op"] == "tree":
         return len(inp.get("edges", [])) >= 1
+    if case["op"] in ("idx2coord", "merge_models", "reorder"):
+        return True
     if case["op"] == "dsu":
         return len(inp.get("ops", [])) >= 1
     return True
@@ -53,33 +55,49 @@ def post(chk, recs, cases):
             st = r["stats"]
             chk.notes.append("outcomes per strategy: " + ", ".join("%s=%s" % (k, v) for k, v in sorted(st.items()) if ":" in k and not k.startswith("family")))
             chk.notes.append("largest tree: %s cliques; largest pattern: %s vertices" % (st.get("max_cliques"), st.get("max_vertices")))
+            chk.notes.append("generated stream: traverse fallback scans %s (clique 0 merged: %s); merge-model ties %s, reorder ties %s, index_to_coord ties %s" % (st.get("traverse_fallback_scans"), st.get("traverse_fallback_scans_clique0_merged"), st.get("merge_model_cases"), st.get("reorder_model_cases"), st.get("idx2coord")))
 
 
 
-def exhaustive7(chk):
-    """thorough tier: ALL 2^21 labelled graphs on 7 vertices x 3 strategies through the checker
-    extracted to OCaml (ExtrOcamlBasic only); any failure is replayed through the Coq-evaluated path."""
+def build_extracted(chk):
+    """check_tree extracted to OCaml (ExtrOcamlBasic only) + the integer-parsing driver; rebuilt
+    only when the Coq objects or the driver are newer than the executable"""
     import shutil
-    import subprocess
-    import concurrent.futures
     xd = os.path.join(chk.wdir, "extract")
     os.makedirs(xd, exist_ok=True)
+    exe = os.path.join(xd, "c17chk")
+    srcs = [os.path.join(core.VERIF, "extract", "c17_extract.v"), os.path.join(core.VERIF, "extract", "c17_driver.ml"),
+            os.path.join(core.COQ, "theories", "Chordal", "TreeSpec.vo"), os.path.join(core.COQ, "theories", "Chordal", "Check.vo")]
+    if os.path.exists(exe) and all(os.path.exists(f) and os.path.getmtime(f) <= os.path.getmtime(exe) for f in srcs):
+        return exe, None
     for f in ("c17_extract.v", "c17_driver.ml"):
         shutil.copy(os.path.join(core.VERIF, "extract", f), os.path.join(xd, f))
     rc, out, dt = core.sh(["coqc", "-noglob", "-Q", os.path.join(core.COQ, "theories"), "Clarabel", "c17_extract.v"], timeout=600, cwd=xd)
     if rc == 0:
         rc, out, dt = core.sh("ocamlfind ocamlopt -O3 -w -a c17chk.mli c17chk.ml c17_driver.ml -o c17chk", timeout=600, cwd=xd)
     if rc != 0:
-        return ["extraction / OCaml build of the checker failed: " + out[-600:]], []
+        return None, "extraction / OCaml build of the checker failed: " + out[-600:]
+    return exe, None
+
+
+def exhaustive_extracted(chk, n, nsh):
+    """ALL labelled graphs on n vertices x 3 strategies through the extracted checker; returns
+    (problems, rejected outcomes).  Rejections are replayed through the Coq-evaluated path by the caller."""
+    import subprocess
+    import concurrent.futures
+    chkexe, err = build_extracted(chk)
+    if err:
+        return [err], []
+    xd = os.path.dirname(chkexe)
     exe = os.path.join(core.BUILD, "target", "debug", "c17")
-    nsh = 64
+    total = 3 * 2 ** (n * (n - 1) // 2)
 
     def one(i):
-        cmd = "%s --exn 7 %d %d --out /dev/stdout | %s" % (exe, i, nsh, os.path.join(xd, "c17chk"))
+        cmd = "%s --exn %d %d %d --out /dev/stdout | %s" % (exe, n, i, nsh, chkexe)
         p = subprocess.run(cmd, shell=True, cwd=xd, stdout=subprocess.PIPE, stderr=subprocess.DEVNULL, text=True, timeout=3000)
         return p.stdout
     done, fails = 0, []
-    per = 3 * (2 ** 21 // nsh)
+    per = total // nsh
 
     def parse(outp):
         d, fl = 0, []
@@ -96,16 +114,41 @@ def exhaustive7(chk):
         d, fl = parse(outp)
         if d != per:
             # a shard was cut short (e.g. the OS refused a thread under load): run it again, alone
-            chk.notes.append("exhaustive n=7: shard %d returned %d of %d outcomes, re-run" % (i, d, per))
+            chk.notes.append("exhaustive n=%d: shard %d returned %d of %d outcomes, re-run" % (n, i, d, per))
             d, fl = parse(one(i))
         done += d
         fails.extend(fl)
     problems = []
-    if done != 3 * 2 ** 21:
-        problems.append("exhaustive 7-vertex run incomplete: %d of %d outcomes checked" % (done, 3 * 2 ** 21))
-    chk.notes.append("exhaustive n=7: %d outcomes (2^21 graphs x 3 strategies) checked by the extracted check_tree, %d rejected" % (done, len(fails)))
-    chk.log("exhaustive7: %d outcomes, %d rejected" % (done, len(fails)))
+    if done != total:
+        problems.append("exhaustive %d-vertex run incomplete: %d of %d outcomes checked" % (n, done, total))
+    chk.notes.append("exhaustive n=%d: %d outcomes (all labelled graphs x 3 strategies) checked by the extracted check_tree, %d rejected" % (n, done, len(fails)))
+    chk.log("exhaustive n=%d: %d outcomes, %d rejected" % (n, done, len(fails)))
     return problems, fails
+
+
+def run_exhaustive(chk, n, nsh):
+    problems, fails = exhaustive_extracted(chk, n, nsh)
+    seen = set()
+    casesn = []
+    for f in fails:
+        if f["bits"] not in seen and len(seen) < 40:
+            seen.add(f["bits"])
+            casesn.append({"n": f["n"], "bits": f["bits"]})
+    if casesn:
+        cf = os.path.join(chk.wdir, "ex%d_fail_C17.json" % n)
+        json.dump({"cases": casesn}, open(cf, "w"))
+        rc, out, recs = chk.run_harness(["--seed", str(chk.seed), "--tier", chk.tier, "--replay", cf], "ex%d_cases_C17.jsonl" % n, timeout=900, bin="c17")
+        cases = [r for r in recs if "coq" in r]
+        bad, errors = chk.coq_eval(HEADER, cases, tag="ex%d" % n)
+        for case, code in bad:
+            if code != 2:
+                chk.violation({"property": "C17", "kind": "exhaustive-%d" % n, "input": case.get("input"), "code": code, "coq": case.get("coq"), "diagnosis": diagnose(chk, case)})
+        if not [b for b in bad if b[1] != 2]:
+            problems.append("extracted checker rejected %d outcomes that the Coq-evaluated checker accepts (extraction tie broken)" % len(fails))
+    for pr in problems:
+        chk.violation({"property": "C17", "kind": "proof-or-tie-broken", "broken": [pr]}, suffix="no-failing-input-found")
+    total = 3 * 2 ** (n * (n - 1) // 2)
+    SPEC.setdefault("extra", {})["exhaustive_%d_vertices" % n] = {"outcomes_checked": total if not problems else "incomplete", "rejected": len(fails), "engine": "check_tree extracted to OCaml (ExtrOcamlBasic)"}
 
 
 SPEC = {
@@ -118,7 +161,7 @@ SPEC = {
     "diagnose": diagnose,
     "post": post,
     "what": "a tree produced by the implementation's chordal analysis is rejected by the proved checker check_tree (or the analysis crashed / hung / left a non-dense multi-clique pattern undecomposed)",
-    "rule": "cases = (sparsity pattern, the three merge strategies) : every labelled graph on 1..6 vertices (quick; evaluated inside Coq) / additionally all 2^21 labelled graphs on 7 vertices (thorough; checker extracted to OCaml, failures replayed inside Coq), random banded / arrow / block-diagonal / disconnected / clique-tree chordal (deep, star) / Erdos-Renyi / cycle / grid patterns up to 300 vertices, presentation variants (diagonal absent, entries in b), plus union-find operation sequences; non-trivial = at least one off-diagonal entry (resp. one union); distinct = distinct input JSON",
+    "rule": "cases = (sparsity pattern, the three merge strategies) : every labelled graph on 1..5 vertices evaluated inside Coq; all 2^15 labelled graphs on 6 vertices (quick and thorough) and all 2^21 on 7 vertices (thorough) through the same checker extracted to OCaml, rejections replayed inside Coq, random banded / arrow / block-diagonal / disconnected / clique-tree chordal (deep, star) / Erdos-Renyi / cycle / grid patterns up to 300 vertices, presentation variants (diagonal absent, entries in b), plus union-find operation sequences; non-trivial = at least one off-diagonal entry (resp. one union); distinct = distinct input JSON",
     "level": "translation_validation",
     "explanation": "Every clique tree the implementation returns (through ChordalInfo::new, the solver's own path) is checked inside Coq by check_tree, proved sound w.r.t. ValidTree (ordering permutation, consecutive supernode partition, coverage of every structural nonzero, parent later in post-order, separator = clique /\\ parent clique, running intersection, nblk). Undecomposed patterns must be dense or single-clique. The union-find, post_order and triangular index maps are proved correct as components; the merge strategies themselves are validated, not proved.",
     "assumptions": ["the universal claim for the merge strategies is established only on the explored patterns (exhaustive bound stated in the rule)",
@@ -129,6 +172,13 @@ SPEC = {
 
 
 def run(chk, replay=None):
+    # balance the coqc shards: cases are dealt round-robin, so deal them in order of decreasing size
+    # (emission order correlates family and cost, which used to leave one shard 5x slower)
+    orig_eval = chk.coq_eval
+
+    def balanced_eval(header, cases, **kw):
+        return orig_eval(header, sorted(cases, key=lambda c: -len(c.get("coq", ""))), **kw)
+    chk.coq_eval = balanced_eval
     if replay is None:
         # regression corpus first (replayed through the same pipeline, results merged by a separate run)
         corpus = sorted(glob.glob(os.path.join(core.VERIF, "corpus", "C17", "*.json")))
@@ -149,28 +199,15 @@ def run(chk, replay=None):
                         chk.violation({"property": "C17", "kind": "corpus-regression", "input": case.get("input"), "code": code, "coq": case.get("coq"),
                                        "diagnosis": diagnose(chk, case)})
                 chk.notes.append("corpus: %d regression cases replayed, %d failing" % (len(cases), len([b for b in bad if b[1] != 2])))
-    if replay is None and chk.tier == "thorough":
+                for r in recs:
+                    if "stats" in r:
+                        chk.notes.append("corpus run: CliqueGraphMergeStrategy::traverse took its fallback scan (index_to_coord path) %s times, %s of them after clique 0 had been merged away" % (r["stats"].get("traverse_fallback_scans"), r["stats"].get("traverse_fallback_scans_clique0_merged")))
+                        SPEC.setdefault("extra", {})["traverse_fallback_scans_corpus"] = {"total": r["stats"].get("traverse_fallback_scans"), "clique0_merged": r["stats"].get("traverse_fallback_scans_clique0_merged")}
+    if replay is None:
+        ok, out = chk.build_coq(SPEC["targets"])
         hok, hout = chk.build_harness(bin="c17")
-        if hok:
-            problems, fails = exhaustive7(chk)
-            seen = set()
-            cases7 = []
-            for f in fails:
-                if f["bits"] not in seen and len(seen) < 40:
-                    seen.add(f["bits"])
-                    cases7.append({"n": f["n"], "bits": f["bits"]})
-            if cases7:
-                cf = os.path.join(chk.wdir, "ex7_fail_C17.json")
-                json.dump({"cases": cases7}, open(cf, "w"))
-                rc, out, recs = chk.run_harness(["--seed", str(chk.seed), "--tier", chk.tier, "--replay", cf], "ex7_cases_C17.jsonl", timeout=900, bin="c17")
-                cases = [r for r in recs if "coq" in r]
-                bad, errors = chk.coq_eval(HEADER, cases, tag="ex7")
-                for case, code in bad:
-                    if code != 2:
-                        chk.violation({"property": "C17", "kind": "exhaustive-7", "input": case.get("input"), "code": code, "coq": case.get("coq"), "diagnosis": diagnose(chk, case)})
-                if not [b for b in bad if b[1] != 2]:
-                    problems.append("extracted checker rejected %d outcomes that the Coq-evaluated checker accepts (extraction tie broken)" % len(fails))
-            for pr in problems:
-                chk.violation({"property": "C17", "kind": "proof-or-tie-broken", "broken": [pr]}, suffix="no-failing-input-found")
-            SPEC.setdefault("extra", {})["exhaustive_7_vertices"] = {"outcomes_checked": 3 * 2 ** 21 if not problems else "incomplete", "rejected": len(fails), "engine": "check_tree extracted to OCaml (ExtrOcamlBasic)"}
+        if ok and hok:
+            run_exhaustive(chk, 6, 16)
+            if chk.tier == "thorough":
+                run_exhaustive(chk, 7, 64)
     return standard.run_standard(chk, SPEC, replay)
